@@ -31,9 +31,63 @@ def run(ctx, pid="C15", tier="quick"):
             counts["r"] = counts.get("r", 0) + len(obs)
     finally:
         P.Prims.register_defaults = orig
+    ctx.add_obligations([_numpy_models_conform(K)])
     return (f"xarray plumbing helpers under contract: _broadcast_size_one_dims (core dimensions of rank 1-3 x every ordered subset as the grouper's dimensions, sizes symbolic; {counts.get('b', 0)} obligations: "
             "every grouper gets the rank of the core dimensions, the dimensions it has sit where the core dimensions are with their sizes, the ones it lacks are size-1 axes in place, the data is untouched), "
             f"xarray_reduce.wrapper (reduction names x skipna None/True/False x dtype kinds; {counts.get('w', 0)} obligations: the documented skipna table decides the reduction name, ValueError exactly for skipna with all/any/count, "
             "one groupby_reduce on the broadcast array and groupers with the caller's keyword arguments, a vector quantile axis is moved last), "
             f"_restore_dim_order (inputs of rank 1-3 x the grouped dimension x orders of the delivered dims x new dims x no_groupby_reorder; {counts.get('r', 0)} obligations: input dimensions in input order, "
             "group dimension in place of the grouped one, new dimensions last).")
+
+
+def _numpy_models_conform(K):
+    """conformance of the ASSUMED contracts the helper proofs rest on: the models of np.expand_dims / np.moveaxis(a, 0, -1) /
+    ndarray.transpose used by PyVC, instantiated on concrete shapes (pairwise different sizes, rank <= 3), against NumPy itself"""
+    import itertools
+    import time
+
+    import numpy as np
+
+    from ..core import DISCHARGED, VIOLATED, Obligation
+    from ..contracts.axes import Arr
+
+    class _Ex:  # the models' side obligations are not of interest here
+        def oblige(self, *a, **k):
+            return True
+
+        def _name(self, *a, **k):
+            return "conformance"
+
+    class _Node:
+        lineno = 0
+
+    t0 = time.time()
+    bad, n = None, 0
+    sizes = (2, 3, 5)
+    for r in range(0, 4):
+        a = np.zeros(sizes[:r])
+        model_in = Arr(list(sizes[:r]), list(range(r)))
+        for k in range(0, 4 - r + 1):
+            for axes in itertools.permutations(range(r + k), k):
+                for neg in (False, True):
+                    ax = [x - (r + k) for x in axes] if neg else list(axes)
+                    if not ax:
+                        continue
+                    n += 1
+                    want = np.expand_dims(a, tuple(ax)).shape
+                    got = K.m_expand_dims(_Ex(), None, [model_in, ax], {}, _Node())
+                    if tuple(got.shape) != tuple(want):
+                        bad = dict(function="np.expand_dims", shape=list(sizes[:r]), axis=ax, numpy=list(want), model=list(got.shape))
+        if r >= 1:
+            n += 1
+            got = K.m_moveaxis(_Ex(), None, [model_in, 0, -1], {}, _Node())
+            if tuple(got.shape) != np.moveaxis(a, 0, -1).shape:
+                bad = dict(function="np.moveaxis", shape=list(sizes[:r]))
+            for order in itertools.permutations(range(r)):
+                n += 1
+                got = model_in.pyvc_method(_Ex(), None, "transpose", list(order), {}, _Node(), None)
+                if tuple(got.shape) != a.transpose(*order).shape:
+                    bad = dict(function="ndarray.transpose", shape=list(sizes[:r]), order=list(order))
+    return Obligation(name="C15.conformance.numpy_axis_models", function="numpy.expand_dims / numpy.moveaxis / ndarray.transpose", status=DISCHARGED if bad is None else VIOLATED, backend="enumeration", seconds=time.time() - t0, kind="table",
+                      formula="the PyVC models of np.expand_dims (any axes, negative forms), np.moveaxis(a, 0, -1) and transpose give NumPy's result shape for every rank <= 3 (sizes pairwise different)",
+                      detail=f"{n} calls compared" if bad is None else f"model differs from NumPy: {bad}", model=bad)
